@@ -30,7 +30,12 @@ def build(spec, with_bbs=False):
             for tn, ins, outs in spec.get("bbtypes", [])
         ]
         for iname, ti, conns in spec.get("insts", []):
-            c.add_blackbox(bbs[ti], iname, dict(conns))
+            if spec.get("distinct_bb"):
+                # every instance gets its own (equal) BlackBox object, as a netlist reader might do
+                tn, ins, outs = spec["bbtypes"][ti]
+                c.add_blackbox(cg.BlackBox(tn, list(ins), list(outs)), iname, dict(conns))
+            else:
+                c.add_blackbox(bbs[ti], iname, dict(conns))
     except Exception as e:  # noqa: BLE001
         raise SpecError(f"cannot build spec: {type(e).__name__}: {e}") from e
     if spec.get("raw_attrs"):
